@@ -160,20 +160,35 @@ def listMin : List Nat → Nat
   | []      => 0
   | x :: xs => xs.foldl min x
 
+/-- `IBRUN_TASKS_PER_NODE`: the configured value, or cores_per_node // (ranks * threads) (at least 1) -/
+def ibrunTpn (c : IbrunCfg) (t : Task) : Nat :=
+  if c.tpnOpt ≠ 0 then c.tpnOpt
+  else if c.cpn / (t.ranks * t.cpr) = 0 then 1 else c.cpn / (t.ranks * t.cpr)
+
+/-- the `-o` offset into the job's task slots (`tpn` per node, nodes in RM order) -/
+def ibrunOffset (tpn : Nat) (c : IbrunCfg) (t : Task) : Except Err Nat :=
+  match ibrunFirst tpn (t.slots.map (·.nodeIndex)) c.nodeIdx 0 with
+  | none => .ok 0
+  | some (base, first) =>
+    -- the ranks on the first used node: the smallest first core, in units of ranks
+    if (t.slots.filter (fun s => s.nodeIndex = first)).any (fun s => s.cores = []) then .error .runtime
+    else
+      .ok (base + listMin ((t.slots.filter (fun s => s.nodeIndex = first)).map (fun s => s.cores.headD 0)) / t.cpr)
+
 def cmdIbrun (c : IbrunCfg) (t : Task) : Except Err Cmd :=
   if t.slots = [] then .error .assertion
   else
-    (fun (tpn : Nat) =>
-      match ibrunFirst tpn (t.slots.map (·.nodeIndex)) c.nodeIdx 0 with
-      | none => .ok (.ibrun tpn t.ranks 0)
-      | some (base, first) =>
-        -- the ranks on the first used node: the smallest first core, in units of ranks
-        if (t.slots.filter (fun s => s.nodeIndex = first)).any (fun s => s.cores = []) then .error .runtime
-        else
-          .ok (.ibrun tpn t.ranks
-                (base + listMin ((t.slots.filter (fun s => s.nodeIndex = first)).map (fun s => s.cores.headD 0)) / t.cpr)))
-      (if c.tpnOpt ≠ 0 then c.tpnOpt
-       else if c.cpn / (t.ranks * t.cpr) = 0 then 1 else c.cpn / (t.ranks * t.cpr))
+    match ibrunOffset (ibrunTpn c t) c t with
+    | .error e => .error e
+    | .ok o    => .ok (.ibrun (ibrunTpn c t) t.ranks o)
+
+/-- what `ibrun -n n -o off` with `IBRUN_TASKS_PER_NODE=tpn` starts (TACC): rank `j` takes task slot
+    `off + j` of the job, i.e. slot `(off + j) % tpn` of node `(off + j) / tpn` in RM order; a task
+    slot is `cpr` consecutive cores.  (Interpretation of the site tool: trusted base.) -/
+def ibrunPlace (tpn cpr : Nat) (nodeIdx : List Nat) (off n : Nat) : List Slot :=
+  (List.range n).map (fun j =>
+    { host := nodeIdx.getD ((off + j) / tpn) 0, nodeIndex := nodeIdx.getD ((off + j) / tpn) 0,
+      cores := (List.range cpr).map (fun k => ((off + j) % tpn) * cpr + k), gpus := [] })
 
 def cmdPrte (t : Task) : Cmd := .prte t.ranks t.cpr (countHosts (hostsOf t) [])
 
